@@ -60,6 +60,9 @@ class InitMethod(MethodDescriptor):
                         instance_attr_spec = instance_metadata.attrs[attr]
                         if instance_attr_spec.owner is not parent:
                             continue
+                        if not instance_attr_spec.init:
+                            # Not a constructor argument of the parent.
+                            continue
                         if attr in kwargs:
                             # The parent constructor does not copy values it
                             # is handed by a subclass, so protect them here.
